@@ -80,6 +80,9 @@ func main() {
 			fmt.Sscan(os.Args[4], &seed)
 		}
 		checks.RaceMain(os.Args[2], rounds, seed)
+	case "zdebug":
+		core.InstallClock()
+		fmt.Println(checks.ZDebug())
 	case "hunt":
 		// debugging aid: vmc hunt <profile> <cfg index> <depth> <substring>: enumerate histories in
 		// one process until a violation whose signature contains the substring shows up
